@@ -1,1 +1,342 @@
-(* Corr/C13.v — in progress *)
+(* Corr/C13.v — correspondence + spec oracle for the codecs (C13).
+
+   Every case was produced by harness/cmd/drive_codec from the CURRENT /repo (built with -tags verif):
+     - values are encoded by the Go encoders (xdrEncodeUint32/Uint64/String/FileHandle, EncodeRPCReply, WriteRecord)
+       or, where the package has no encoder (call header, AUTH_SYS body, arbitrary fragmentations), by the harness's
+       own RFC encoder; [mismatch] checks in both situations that the bytes equal the MODEL's encoding, so the bytes
+       the Go decoder consumed are the model's encoding (model encodes -> Go decodes) and the bytes the model decodes
+       are Go's (Go encodes -> model decodes);
+     - every decoder runs under a recording reader: [ob_used] = bytes taken from the reader, [ob_reads] = size of the
+       buffer of every Read call in order (io.ReadFull issues exactly one Read per buffer with this reader), and
+       [ob_alloc] = runtime.MemStats.TotalAlloc delta across the call (all bytes allocated, size-class rounded).
+   [mismatch] (code 1): model result / bytes used / read-buffer sizes = observed, model encoding = observed bytes, and
+     sum(model trace) - 16 <= ob_alloc <= alloc_hi(model trace)  (the trace accounts for the allocation volume).
+   [specfail] (code 2): the statement of C13 on the implementation's own outputs, without the model's codecs:
+     round trips return the value and use exactly 4+n+pad bytes; no read buffer exceeds the documented limit; a declared
+     length above the limit is an error with a small allocation volume; accepted values respect the limits and are
+     the bytes of the input; fragmentations reassemble; writer output parses into fragments <= max and reads back. *)
+From Coq Require Import List NArith ZArith Bool String Ascii.
+From Verif Require Import Gen.Facts Model.Bytes Model.Xdr Model.Rpc Model.RecordMark Corr.Common.
+Import ListNotations.
+Open Scope N_scope.
+
+(* ---- hex strings keep the case files small ---- *)
+Definition hexval (a : ascii) : N := let n := N_of_ascii a in if n <? 58 then n - 48 else n - 87.
+Fixpoint H (s : string) : bytes :=
+  match s with
+  | String a (String b r) => (16 * hexval a + hexval b) :: H r
+  | _ => []
+  end.
+
+Record obs (A : Type) := mkObs { ob_val : option A; ob_used : N; ob_reads : list N; ob_alloc : N }.
+Arguments mkObs {A}.
+Arguments ob_val {A}.
+Arguments ob_used {A}.
+Arguments ob_reads {A}.
+Arguments ob_alloc {A}.
+
+Inductive tkind := TU32 | TStr | TFh | TCall | TAuth.
+
+Inductive case :=
+| KU32 (v : N) (genc rest : bytes) (o : obs N)                   (* Go-encode v, Go-decode genc ++ rest *)
+| KU64 (v : N) (genc : bytes)                                    (* Go-encode v *)
+| KStr (s : bytes) (genc rest : bytes) (o : obs bytes)
+| KFh (h : N) (genc rest : bytes) (o : obs N)
+| KRawU32 (input : bytes) (o : obs N)                            (* arbitrary / malformed streams *)
+| KRawStr (input : bytes) (o : obs bytes)
+| KRawFh (input : bytes) (o : obs N)
+| KCall (c : call) (input rest : bytes) (o : obs call)           (* input = harness encoding of c ++ rest *)
+| KRawCall (input : bytes) (o : obs call)
+| KAuth (a : authsys) (body trail : bytes) (o : obs authsys)     (* body = harness encoding of a ++ trail; used/reads unused *)
+| KRawAuth (body : bytes) (o : obs authsys)
+| KReply (r : reply) (gout : bytes)                              (* EncodeRPCReply *)
+| KRecs (mx : Z) (recs : list (list bytes)) (tail : bytes) (input : bytes) (os : list (obs bytes))
+                                                                 (* successive ReadRecord calls until the first error *)
+| KWrite (mf mx : Z) (data gout : bytes) (back : obs bytes)      (* WriteRecord, then ReadRecord on the output *)
+| KTrunc (k : tkind) (input : bytes) (os : list (bool * N))      (* Go decoder on every proper prefix: (ok, used) *)
+| KBig (mx : Z) (lens : list N) (tail : N) (ok equal : bool) (outlen used : N) (reads : list N) (alloc : N)
+       (* a large record given by its fragment lengths only; content compared on the Go side ([equal]) *)
+| KBigW (mf mx : Z) (total : N) (lens : list N) (lastok backok : bool) (alloc : N).
+       (* WriteRecord on a large record: fragment lengths parsed from Go's output, last-flag placement, read back *)
+
+(* ---------- helpers ---------- *)
+Definition sum (l : list N) : N := fold_left N.add l 0.
+Definition all_le (L : N) (l : list N) : bool := forallb (fun x => x <=? L) l.
+Definition opt_eqb {A} (e : A -> A -> bool) := @option_eqb A e.
+Definition nlist_eqb : list N -> list N -> bool := bytes_eqb.
+
+Definition res_opt {A} (r : res A) : option A := match r with Ok a => Some a | Err _ => None end.
+Definition m_used {A} (s : bytes) (o : out A) : N := len s - len (o_rest o).
+Definition m_reads {A} (o : out A) : list N := map ev_size (filter is_rd (o_trace o)).
+Definition m_sum {A} (o : out A) : N := sum (map ev_size (o_trace o)).
+
+(* allocation volume vs. the model trace.  Lower bound: everything in the trace is really allocated (16 = slack
+   for Go's tiny allocator, which may place a < 16-byte object in a block opened earlier).  Upper bound: size-class
+   rounding (<= 12.5% + a page for large objects), binary.Read scratch words, error values, result structs, the
+   string copy of xdrDecodeString and bytes.Buffer's growth in ReadRecord (k = 2 for decoders, 8 for records). *)
+Definition alloc_slack : N := 2048.
+Definition alloc_within (k : N) (model_sum alloc : N) : bool :=
+  (model_sum <=? alloc + 16) && (alloc <=? k * model_sum + alloc_slack).
+
+(* model vs. observation for a stream decoder *)
+Definition dec_agrees {A} (e : A -> A -> bool) (k : N) (s : bytes) (m : out A) (o : obs A) : bool :=
+  opt_eqb e (res_opt (o_res m)) (ob_val o) && (m_used s m =? ob_used o) && nlist_eqb (m_reads m) (ob_reads o) &&
+  alloc_within k (m_sum m) (ob_alloc o).
+
+Definition flag (b : bool) (code : N) : list (N * N) := if b then [] else [(0, code)].
+Definition flagi (i : N) (b : bool) (code : N) : list (N * N) := if b then [] else [(i, code)].
+
+(* documented limits (the spec side uses the documented numbers, not Facts.v) *)
+Definition L_string : N := 8192.
+Definition L_auth : N := 400.
+Definition L_fh : N := 64.
+Definition L_gids : N := 16.
+Definition L_record : N := 1048576.
+Definition small_alloc : N := 1024.     (* "no allocation of that size": volume of a rejected decode *)
+
+Definition padn (n : N) : N := (4 - n mod 4) mod 4.
+Definition declared (s : bytes) : N := be_dec (take 4 s).
+Definition sub (off n : N) (s : bytes) : bytes := take n (drop off s).
+
+(* ---------- per-kind checks ---------- *)
+(* strings *)
+Definition spec_str_any (input : bytes) (o : obs bytes) : bool :=
+  all_le L_string (ob_reads o) &&
+  (if (4 <=? len input) && (L_string <? declared input)
+   then match ob_val o with None => (ob_used o =? 4) && (ob_alloc o <=? small_alloc) | Some _ => false end
+   else true) &&
+  match ob_val o with
+  | Some s => (len s <=? L_string) && (ob_used o =? 4 + len s + padn (len s)) && (declared input =? len s) &&
+              bytes_eqb (sub 4 (len s) input) s && negb (has_byte 0 s)
+  | None => true
+  end.
+Definition spec_str (s genc rest : bytes) (o : obs bytes) : bool :=
+  spec_str_any (genc ++ rest) o &&
+  (len genc =? 4 + len s + padn (len s)) &&
+  (if len s <=? L_string
+   then (ob_used o =? len genc) &&
+        (if has_byte 0 s then match ob_val o with None => true | Some _ => false end
+         else opt_eqb bytes_eqb (ob_val o) (Some s))
+   else match ob_val o with None => true | Some _ => false end).
+
+(* file handles *)
+Definition spec_fh_any (input : bytes) (o : obs N) : bool :=
+  all_le L_fh (ob_reads o) &&
+  (if (4 <=? len input) && (L_fh <? declared input)
+   then match ob_val o with None => (ob_used o =? 4) && (ob_alloc o <=? small_alloc) | Some _ => false end
+   else true) &&
+  match ob_val o with
+  | Some h => (declared input =? 8) && (ob_used o =? 12) && (be_dec (sub 4 8 input) =? h)
+  | None => true
+  end.
+Definition spec_fh (h : N) (genc rest : bytes) (o : obs N) : bool :=
+  spec_fh_any (genc ++ rest) o && (len genc =? 12) && opt_eqb N.eqb (ob_val o) (Some h) && (ob_used o =? 12).
+
+(* u32 *)
+Definition spec_u32_any (input : bytes) (o : obs N) : bool :=
+  all_le 4 (ob_reads o) &&
+  match ob_val o with
+  | Some v => (4 <=? len input) && (ob_used o =? 4) && (declared input =? v)
+  | None => len input <? 4
+  end.
+Definition spec_u32 (v : N) (genc rest : bytes) (o : obs N) : bool :=
+  spec_u32_any (genc ++ rest) o && (len genc =? 4) && opt_eqb N.eqb (ob_val o) (Some v).
+
+(* call header *)
+Definition call_len (c : call) : N :=
+  40 + len (c_cred_body c) + padn (len (c_cred_body c)) + len (c_verf_body c) + padn (len (c_verf_body c)).
+Definition spec_call_any (input : bytes) (o : obs call) : bool :=
+  all_le L_auth (ob_reads o) && (ob_alloc o <=? 2 * (2 * L_auth) + alloc_slack) &&
+  (* declared credential length above the limit, behind seven well-formed words *)
+  (if (32 <=? len input) && (be_dec (sub 4 4 input) =? 0) && (L_auth <? be_dec (sub 28 4 input))
+   then match ob_val o with None => (ob_used o =? 32) && (ob_alloc o <=? small_alloc) | Some _ => false end
+   else true) &&
+  match ob_val o with
+  | Some c => (len (c_cred_body c) <=? L_auth) && (len (c_verf_body c) <=? L_auth) && (ob_used o =? call_len c) &&
+              (be_dec (sub 0 4 input) =? c_xid c) && (be_dec (sub 4 4 input) =? 0) &&
+              (be_dec (sub 8 4 input) =? c_rpcvers c) && (be_dec (sub 12 4 input) =? c_prog c) &&
+              (be_dec (sub 16 4 input) =? c_vers c) && (be_dec (sub 20 4 input) =? c_proc c) &&
+              (be_dec (sub 24 4 input) =? c_cred_flavor c) &&
+              bytes_eqb (sub 32 (len (c_cred_body c)) input) (c_cred_body c)
+  | None => true
+  end.
+Definition call_within (c : call) : bool :=
+  (len (c_cred_body c) <=? L_auth) && (len (c_verf_body c) <=? L_auth).
+Definition spec_call (c : call) (input rest : bytes) (o : obs call) : bool :=
+  spec_call_any input o &&
+  (if call_within c
+   then opt_eqb call_eqb (ob_val o) (Some c) && (ob_used o + len rest =? len input)
+   else match ob_val o with None => ob_alloc o <=? L_auth + small_alloc | Some _ => false end).
+
+(* AUTH_SYS *)
+Definition spec_auth_any (body : bytes) (o : obs authsys) : bool :=
+  match ob_val o with
+  | Some a => (len (a_gids a) <=? L_gids) && (len (a_machine a) <=? L_string) &&
+              (4 + len (a_machine a) <=? len body) &&
+              (ob_alloc o <=? 2 * (len (a_machine a) + 4 * len (a_gids a)) + alloc_slack)
+  | None => ob_alloc o <=? 2 * N.min L_string (len body) + alloc_slack
+  end.
+Definition auth_within (a : authsys) : bool := (len (a_gids a) <=? L_gids) && (len (a_machine a) <=? L_string).
+Definition spec_auth (a : authsys) (body : bytes) (o : obs authsys) : bool :=
+  spec_auth_any body o &&
+  (if auth_within a then opt_eqb authsys_eqb (ob_val o) (Some a)
+   else match ob_val o with None => true | Some _ => false end).
+
+(* records: an independent parser of fragment streams (spec side) *)
+Fixpoint parse_frags (fuel : nat) (s : bytes) (acc : list bytes) : option (list bytes * bytes) :=
+  match fuel with
+  | O => None
+  | S f =>
+    if len s <? 4 then None else
+    let h := declared s in
+    let n := h mod 2147483648 in
+    if len s - 4 <? n then None else
+    let fr := sub 4 n s in
+    if 2147483648 <=? h then Some (rev (fr :: acc), drop (4 + n) s)
+    else parse_frags f (drop (4 + n) s) (fr :: acc)
+  end.
+Definition emax_doc (mx : Z) : N := if (mx <=? 0)%Z then L_record else Z.to_N mx.
+
+(* one ReadRecord observation against the fragments the harness put on the wire *)
+Definition spec_rec (mx : Z) (frs : list bytes) (o : obs bytes) : bool :=
+  let r := concat frs in
+  all_le (N.max 4 (emax_doc mx)) (ob_reads o) &&
+  (if len r <=? emax_doc mx
+   then opt_eqb bytes_eqb (ob_val o) (Some r) && (ob_used o =? 4 * N.of_nat (length frs) + len r)
+   else match ob_val o with None => true | Some _ => false end).
+Fixpoint spec_recs (mx : Z) (i : N) (recs : list (list bytes)) (os : list (obs bytes)) : list (N * N) :=
+  match recs, os with
+  | frs :: recs', o :: os' =>
+      if spec_rec mx frs o
+      then (if len (concat frs) <=? emax_doc mx then spec_recs mx (i + 1) recs' os' else [])
+      else [(i, code_specfail)]
+  | _ :: _, [] => [(i, code_specfail)]        (* a record the reader never delivered *)
+  | [], _ => flagi i (forallb (fun o => all_le (N.max 4 (emax_doc mx)) (ob_reads o) &&
+                                       match ob_val o with Some r => len r <=? emax_doc mx | None => true end) os)
+                   code_specfail
+  end.
+
+(* model: successive read_record calls; returns the per-call (out, stream before the call) *)
+Fixpoint model_recs (fuel : nat) (mx : Z) (s : bytes) : list (bytes * out bytes) :=
+  match fuel with
+  | O => []
+  | S f => let o := read_record mx s in
+           (s, o) :: (if is_ok (o_res o) then model_recs f mx (o_rest o) else [])
+  end.
+Fixpoint recs_agree (i : N) (ms : list (bytes * out bytes)) (os : list (obs bytes)) : list (N * N) :=
+  match ms, os with
+  | [], [] => []
+  | (s, m) :: ms', o :: os' =>
+      if dec_agrees bytes_eqb 8 s m o then recs_agree (i + 1) ms' os' else [(i, code_mismatch)]
+  | _, _ => [(i, code_mismatch)]
+  end.
+
+Definition eff_frag_doc (mf : Z) : N :=
+  if ((mf <=? 0) || (2147483647 <? mf))%Z then 1048576 else Z.to_N mf.
+
+(* truncation *)
+Definition trunc_model (k : tkind) (p : bytes) : bool * N :=
+  match k with
+  | TU32 => let m := dec_u32 p in (is_ok (o_res m), m_used p m)
+  | TStr => let m := dec_string p in (is_ok (o_res m), m_used p m)
+  | TFh => let m := dec_fh p in (is_ok (o_res m), m_used p m)
+  | TCall => let m := dec_call p in (is_ok (o_res m), m_used p m)
+  | TAuth => (is_ok (o_res (parse_authsys p)), 0)
+  end.
+Fixpoint prefixes (n : nat) (s : bytes) : list bytes :=   (* take 0 s, ..., take (n-1) s *)
+  match n with O => [] | S k => prefixes k s ++ [take (N.of_nat k) s] end.
+Definition pair_bn_eqb (a b : bool * N) : bool := Bool.eqb (fst a) (fst b) && (snd a =? snd b).
+
+(* big records: the model runs on a stream with the same headers and zero payload *)
+Definition big_stream (lens : list N) (tail : N) : bytes := enc_frags (map zeros lens) ++ zeros tail.
+Definition expected_reads (mx : Z) (lens : list N) : list N :=   (* spec side: headers and non-empty fragments *)
+  flat_map (fun l => 4 :: (if l =? 0 then [] else [l])) lens.
+
+(* ---------- the two judgements ---------- *)
+Definition mismatch (c : case) : list (N * N) :=
+  match c with
+  | KU32 v genc rest o =>
+      flag (bytes_eqb (enc_u32 v) genc && dec_agrees N.eqb 2 (genc ++ rest) (dec_u32 (genc ++ rest)) o) code_mismatch
+  | KU64 v genc => flag (bytes_eqb (enc_u64 v) genc) code_mismatch
+  | KStr s genc rest o =>
+      flag (bytes_eqb (enc_string s) genc && dec_agrees bytes_eqb 2 (genc ++ rest) (dec_string (genc ++ rest)) o)
+           code_mismatch
+  | KFh h genc rest o =>
+      flag (bytes_eqb (enc_fh h) genc && dec_agrees N.eqb 2 (genc ++ rest) (dec_fh (genc ++ rest)) o) code_mismatch
+  | KRawU32 input o => flag (dec_agrees N.eqb 2 input (dec_u32 input) o) code_mismatch
+  | KRawStr input o => flag (dec_agrees bytes_eqb 2 input (dec_string input) o) code_mismatch
+  | KRawFh input o => flag (dec_agrees N.eqb 2 input (dec_fh input) o) code_mismatch
+  | KCall c input rest o =>
+      flag (bytes_eqb (enc_call c ++ rest) input && dec_agrees call_eqb 2 input (dec_call input) o) code_mismatch
+  | KRawCall input o => flag (dec_agrees call_eqb 2 input (dec_call input) o) code_mismatch
+  | KAuth a body trail o =>
+      let m := parse_authsys body in
+      flag (bytes_eqb (enc_authsys a ++ trail) body && opt_eqb authsys_eqb (res_opt (o_res m)) (ob_val o) &&
+            alloc_within 2 (m_sum m) (ob_alloc o)) code_mismatch
+  | KRawAuth body o =>
+      let m := parse_authsys body in
+      flag (opt_eqb authsys_eqb (res_opt (o_res m)) (ob_val o) && alloc_within 2 (m_sum m) (ob_alloc o)) code_mismatch
+  | KReply r gout => flag (bytes_eqb (enc_reply r) gout) code_mismatch
+  | KRecs mx recs tail input os =>
+      flag (bytes_eqb (concat (map enc_frags recs) ++ tail) input) code_mismatch ++
+      recs_agree 0 (model_recs (S (length os)) mx input) os
+  | KWrite mf mx data gout back =>
+      flag (bytes_eqb (write_record mf data) gout && dec_agrees bytes_eqb 8 gout (read_record mx gout) back)
+           code_mismatch
+  | KTrunc k input os =>
+      match first_diff pair_bn_eqb 0 (map (trunc_model k) (prefixes (length input) input)) os with
+      | Some i => [(i, code_mismatch)] | None => [] end
+  | KBig mx lens tail ok equal outlen used reads alloc =>
+      let s := big_stream lens tail in
+      let m := read_record mx s in
+      flag (Bool.eqb (is_ok (o_res m)) ok && (m_used s m =? used) && nlist_eqb (m_reads m) reads &&
+            (match o_res m with Ok r => len r =? outlen | Err _ => outlen =? 0 end) &&
+            alloc_within 8 (m_sum m) alloc) code_mismatch
+  | KBigW mf mx total lens lastok backok alloc =>
+      match parse_frags (S (length lens)) (write_record mf (zeros total)) [] with
+      | Some (frs, rest) => flag (nlist_eqb (map len frs) lens && (len rest =? 0) && lastok) code_mismatch
+      | None => [(0, code_mismatch)]
+      end
+  end.
+
+Definition specfail (c : case) : list (N * N) :=
+  match c with
+  | KU32 v genc rest o => flag (spec_u32 v genc rest o) code_specfail
+  | KU64 v genc => flag ((len genc =? 8) && (be_dec genc =? v)) code_specfail
+  | KStr s genc rest o => flag (spec_str s genc rest o) code_specfail
+  | KFh h genc rest o => flag (spec_fh h genc rest o) code_specfail
+  | KRawU32 input o => flag (spec_u32_any input o) code_specfail
+  | KRawStr input o => flag (spec_str_any input o) code_specfail
+  | KRawFh input o => flag (spec_fh_any input o) code_specfail
+  | KCall c input rest o => flag (spec_call c input rest o) code_specfail
+  | KRawCall input o => flag (spec_call_any input o) code_specfail
+  | KAuth a body trail o => flag (spec_auth a body o) code_specfail
+  | KRawAuth body o => flag (spec_auth_any body o) code_specfail
+  | KReply r gout => []
+  | KRecs mx recs tail input os => spec_recs mx 0 recs os
+  | KWrite mf mx data gout back =>
+      flag (match parse_frags (S (length gout)) gout [] with
+            | Some (frs, rest) =>
+                (len rest =? 0) && bytes_eqb (concat frs) data && forallb (fun f => len f <=? eff_frag_doc mf) frs &&
+                ((len data =? 0) || forallb (fun f => 0 <? len f) frs)
+            | None => false
+            end &&
+            (if len data <=? emax_doc mx
+             then opt_eqb bytes_eqb (ob_val back) (Some data) && (ob_used back =? len gout)
+             else match ob_val back with None => true | Some _ => false end)) code_specfail
+  | KTrunc k input os => flag (forallb (fun x => negb (fst x)) os && (N.of_nat (length os) =? len input)) code_specfail
+  | KBig mx lens tail ok equal outlen used reads alloc =>
+      let total := sum lens in
+      flag (all_le (N.max 4 (emax_doc mx)) reads &&
+            (if total <=? emax_doc mx
+             then ok && equal && (outlen =? total) && (used =? 4 * N.of_nat (length lens) + total) &&
+                  nlist_eqb reads (expected_reads mx lens)
+             else negb ok && (alloc <=? 8 * emax_doc mx + alloc_slack))) code_specfail
+  | KBigW mf mx total lens lastok backok alloc =>
+      flag ((sum lens =? total) && forallb (fun l => l <=? eff_frag_doc mf) lens && lastok &&
+            ((total =? 0) || forallb (fun l => 0 <? l) lens) &&
+            Bool.eqb backok (total <=? emax_doc mx)) code_specfail
+  end.
+
+Definition check (c : case) : list (N * N) := specfail c ++ mismatch c.
+Definition run (cs : list case) : result := run_cases check cs.
